@@ -1186,11 +1186,19 @@ func (m *repoManager) saveRepoByVersion(v dvid.VersionID) error {
 
 // types returns a list of TypeService needed for this set of repositories
 func (m *repoManager) types() (map[dvid.URLString]TypeService, error) {
+	// repoToUUID is guarded by idMutex; copy it first so that the two mutexes are never nested here.
+	m.idMutex.RLock()
+	roots := make(map[dvid.RepoID]dvid.UUID, len(m.repoToUUID))
+	for repoID, root := range m.repoToUUID {
+		roots[repoID] = root
+	}
+	m.idMutex.RUnlock()
+
 	m.repoMutex.RLock()
 	defer m.repoMutex.RUnlock()
 
 	combinedMap := make(map[dvid.URLString]TypeService)
-	for repoID, root := range m.repoToUUID {
+	for repoID, root := range roots {
 		repo, found := m.repos[root]
 		if !found {
 			return nil, fmt.Errorf("could not find repo %s (repo ID %d)", root, repoID)
